@@ -11,10 +11,10 @@ CLAIMS = {
          "Symbol-meaning and type-form sections, archives, .fm text, and whole-program equality are NOT covered; bounded jobs are labelled and not counted as proved."),
  "C07": ("proof", "Two clauses: exit status is non-zero exactly when an error was printed (contract on main/compFilesLoop chain), and no table is indexed by an out-of-range character for any input byte (contracts on keyTag/keyLongest and the C-name mangler).", "§3 C07",
          "Termination and fault-freedom of the whole front end on arbitrary bytes are not decided by this check."),
- "C10": ("proof", "Lemmas the allocator rests on: size-class tables return the smallest class >= n, division-by-lookup equals integer division for every page offset, page-map search returns only free in-range runs, section layout arithmetic keeps info and data disjoint and aligned.", "§3 C10",
-         "Disjointness of live blocks over all histories, coalescing and the collector are NOT decided (integer/pointer casts and stack scanning are outside CBMC's memory model)."),
- "C11": ("proof", "Representation switch, machine-integer conversions, double-word step primitives, immediate fast paths and sign/compare predicates proved for all inputs; add/subtract/compare/shift/negate exact for operands up to 3 digits (bounded); multiply/divide/gcd/power/radix conversion undecided and stated.", "§3 C11",
-         "Allocator stub; struct-hack arrays sized >= sizeof(struct bint); products and quotients not decided (solver limit)."),
+ "C10": ("proof", "Lemmas the allocator rests on: size-class tables return the smallest class >= n, division-by-lookup equals integer division for every page offset, page-map search returns only free in-range runs, section layout arithmetic keeps info and data disjoint and aligned, stoRecode on fixed pieces; the free-piece B-tree's node steps (split/merge/rotations at t=16) preserve the in-order sequence (bounded: sampled cases).", "§3 C10",
+         "Disjointness of live blocks over all histories, piece splitting/coalescing and the collector are NOT decided (integer/pointer casts and stack scanning are outside CBMC's memory model)."),
+ "C11": ("proof", "Representation switch, machine-integer conversions, double-word step primitives, immediate fast paths and sign/compare predicates proved for all inputs; add/subtract (every operand shape and sign case, modular over the recursion)/compare/shift/negate exact for operands up to 3 digits (bounded); digit products against the schoolbook expansion and the Knuth-D quotient identity only with one operand a constant of the job (bounded); general multiply/divide, gcd, power, radix conversion undecided and stated.", "§3 C11",
+         "Allocator stub; struct-hack arrays sized >= sizeof(struct bint); assume-guarantee models at inner call sites (iintShift, bintPlus/bintMinus re-entries) whose contracts are enforced in other jobs; distributivity of the schoolbook expansion is on paper; z3 4.8.12 for immediate-operand shapes."),
  "C15": ("proof", "Every function that builds, offsets, compares or decodes a packed source position is proved against an abstract (mac,column,line) view for ALL 2^64 words and all columns, so a diagnostic's line never depends on its column and shifts by exactly k under k inserted lines; the global line table mapping is checked for tables of <= 6 segments (bounded).", "§3 C15",
          "Field layout taken from the unit's header comment; include.c's #line state machine and comsg's sorting/printing are outside the contracts."),
  "C17": ("proof", "The readers that first touch an untrusted library file (buffer readers, header validation, section fetch) are proved memory-safe and refusing on every byte string; the FOAM tree decoder is bounded.", "§3 C17",
@@ -23,8 +23,8 @@ CLAIMS = {
          "libc I/O functions are contracts, text-producing callees are replaced by contracts that may set the I/O-failed ghost."),
  "C19": ("proof", "Native<->portable float conversion is proved the identity on all 2^32 single and all 2^64 double bit patterns (NaN to NaN); dissemble/assemble identity on every non-NaN value; literal conversion agrees between folder and runtime with atof uninterpreted.", "§3 C19",
          "IEEE-754 binary32/64 native formats (constants read from the real cport.h); atof treated as a deterministic uninterpreted function."),
- "C20": ("proof", "Bit-vector point operations and index loops proved for all lengths; word-stepping loops, hash table, B-tree, heap and DNF checked against their abstract models up to stated sizes (bounded, labelled).", "§3 C20",
-         "Bounded jobs are labelled B and never counted as proved; allocator stub."),
+ "C20": ("proof", "Bit-vector point operations and index loops proved for all lengths; word-stepping loops, hash table, heap and DNF checked against their abstract models up to stated sizes; B-tree node steps (split/merge/rotations) against the in-order-sequence contract for t=2,3 and sampled t=16 cases, whole insert and one modular level of delete on height-2 trees per shape (bounded, labelled).", "§3 C20",
+         "Bounded jobs are labelled B and never counted as proved; allocator stub; B-tree height >= 3 and the fullest height-2 shapes not covered; btreeDelete0 re-entries bound to a contract model."),
 }
 
 NA = {
@@ -60,7 +60,7 @@ def main():
             "engine": "cbmc-contracts",
             "level_claimed": {"category": cat, "text": text, "design_ref": "DESIGN.md " + ref},
             "level_note": note,
-            "technique": "contract-based deductive verification: CBMC 6.11 function/loop contracts (goto-instrument --dfcc) on the real C translation units, SAT back end; bounded unwinding only where labelled",
+            "technique": "contract-based deductive verification: CBMC 6.11 function/loop contracts (goto-instrument --dfcc) on the real C translation units, SAT back end (z3 for the jobs named in DESIGN.md §2.3); plain assertion harnesses over the real included unit where dfcc cannot be used; bounded unwinding only where labelled",
         })
     na.sort(key=lambda x: x["property_id"])
     m = {
